@@ -51,10 +51,14 @@ pub struct Frame {
 	pub fname: String,
 }
 
-#[derive(Clone, Copy, Debug)]
-pub struct Decision {
-	pub taken: bool,
-	pub other_tried: bool,
+/// one solver-dependent control decision of a run; replayed verbatim when a prefix is re-executed
+#[derive(Clone, Copy, Debug, PartialEq)]
+pub enum Rec {
+	Branch { taken: bool, fork: bool, tried: bool },
+	/// result of a feasibility question: 1 only-true, 0 only-false, -1 both
+	Decided(i8),
+	/// a speculative unit starts here: true = it merged (its inner records follow), false = impure
+	Spec(bool),
 }
 
 #[derive(Clone, Debug)]
@@ -74,8 +78,8 @@ pub struct Interp<'p> {
 	pub mode: Mode,
 	pub frames: Vec<Frame>,
 	pub next_cell: u64,
-	pub decisions: Vec<Decision>,
-	pub dpos: usize,
+	pub trace: Vec<Rec>,
+	pub tpos: usize,
 	pub spec_marks: Vec<u64>,
 	pub no_merge_sites: HashSet<usize>,
 	pub events: Vec<Event>,
@@ -115,8 +119,8 @@ impl<'p> Interp<'p> {
 			mode,
 			frames: Vec::new(),
 			next_cell: 1,
-			decisions: Vec::new(),
-			dpos: 0,
+			trace: Vec::new(),
+			tpos: 0,
 			spec_marks: Vec::new(),
 			no_merge_sites: HashSet::new(),
 			events: Vec::new(),
@@ -311,44 +315,50 @@ impl<'p> Interp<'p> {
 	}
 
 	// ---------------------------------------------------------------- branching
-	/// decide a symbolic condition: returns the side taken; may record a decision (fork)
+	/// decide a symbolic condition: returns the side taken; may record a fork
 	pub fn branch(&mut self, c: T) -> R<bool> {
 		if let Some(b) = self.tm.as_bool(c) {
 			return Ok(b);
 		}
 		let nc = self.tm.not(c);
-		if self.spec_marks.is_empty() && self.dpos < self.decisions.len() {
-			let d = self.decisions[self.dpos];
-			// replay is only valid for genuine forks; single-sided conditions were never recorded, so
-			// re-derive whether this condition is a fork under the current PC
-			let sol = self.sol.as_mut().unwrap();
-			let ft = sol.check_with(&self.tm, c, true);
-			let ff = sol.check_with(&self.tm, c, false);
-			match (ft, ff) {
-				(Res::Sat, Res::Unsat) => return Ok(true),
-				(Res::Unsat, Res::Sat) => return Ok(false),
-				(Res::Unsat, Res::Unsat) => return Err(Ctl::Infeasible),
-				(Res::Sat, Res::Sat) => {}
-				_ => return Err(Ctl::Unknown("solver answered unknown at a branch".into())),
+		if std::env::var("RSX_TRACE").is_ok() {
+			eprintln!("  branch c=t{} tpos={} len={} spec={}", c, self.tpos, self.trace.len(), self.spec_marks.len());
+		}
+		if self.tpos < self.trace.len() {
+			match self.trace[self.tpos] {
+				Rec::Branch { taken, fork, .. } => {
+					self.tpos += 1;
+					if fork {
+						let sol = self.sol.as_mut().unwrap();
+						sol.push();
+						sol.assert(&self.tm, if taken { c } else { nc });
+					}
+					return Ok(taken);
+				}
+				o => return Err(Ctl::Stop(format!("internal: trace mismatch at branch ({:?})", o))),
 			}
-			self.dpos += 1;
-			sol.push();
-			sol.assert(&self.tm, if d.taken { c } else { nc });
-			return Ok(d.taken);
 		}
 		let sol = self.sol.as_mut().unwrap();
 		let ft = sol.check_with(&self.tm, c, true);
 		let ff = sol.check_with(&self.tm, c, false);
 		match (ft, ff) {
-			(Res::Sat, Res::Unsat) => Ok(true),
-			(Res::Unsat, Res::Sat) => Ok(false),
+			(Res::Sat, Res::Unsat) => {
+				self.trace.push(Rec::Branch { taken: true, fork: false, tried: true });
+				self.tpos += 1;
+				Ok(true)
+			}
+			(Res::Unsat, Res::Sat) => {
+				self.trace.push(Rec::Branch { taken: false, fork: false, tried: true });
+				self.tpos += 1;
+				Ok(false)
+			}
 			(Res::Unsat, Res::Unsat) => Err(Ctl::Infeasible),
 			(Res::Sat, Res::Sat) => {
 				if !self.spec_marks.is_empty() {
 					return Err(Ctl::Impure("fork inside a speculative branch".into()));
 				}
-				self.decisions.push(Decision { taken: true, other_tried: false });
-				self.dpos += 1;
+				self.trace.push(Rec::Branch { taken: true, fork: true, tried: false });
+				self.tpos += 1;
 				sol.push();
 				sol.assert(&self.tm, c);
 				Ok(true)
@@ -361,15 +371,100 @@ impl<'p> Interp<'p> {
 		if let Some(b) = self.tm.as_bool(c) {
 			return Ok(Some(b));
 		}
+		if self.tpos < self.trace.len() {
+			match self.trace[self.tpos] {
+				Rec::Decided(x) => {
+					self.tpos += 1;
+					return Ok(match x {
+						1 => Some(true),
+						0 => Some(false),
+						_ => None,
+					});
+				}
+				o => return Err(Ctl::Stop(format!("internal: trace mismatch at decided ({:?})", o))),
+			}
+		}
 		let sol = self.sol.as_mut().unwrap();
 		let ft = sol.check_with(&self.tm, c, true);
 		let ff = sol.check_with(&self.tm, c, false);
-		match (ft, ff) {
-			(Res::Sat, Res::Unsat) => Ok(Some(true)),
-			(Res::Unsat, Res::Sat) => Ok(Some(false)),
-			(Res::Unsat, Res::Unsat) => Err(Ctl::Infeasible),
-			(Res::Sat, Res::Sat) => Ok(None),
-			_ => Err(Ctl::Unknown("solver answered unknown at a branch".into())),
+		let r = match (ft, ff) {
+			(Res::Sat, Res::Unsat) => Some(true),
+			(Res::Unsat, Res::Sat) => Some(false),
+			(Res::Unsat, Res::Unsat) => return Err(Ctl::Infeasible),
+			(Res::Sat, Res::Sat) => None,
+			_ => return Err(Ctl::Unknown("solver answered unknown at a branch".into())),
+		};
+		self.trace.push(Rec::Decided(match r {
+			Some(true) => 1,
+			Some(false) => 0,
+			None => -1,
+		}));
+		self.tpos += 1;
+		Ok(r)
+	}
+	/// is the current path condition satisfiable (recorded, so that replays agree)
+	pub fn pc_feasible(&mut self) -> R<bool> {
+		if self.tpos < self.trace.len() {
+			match self.trace[self.tpos] {
+				Rec::Decided(x) => {
+					self.tpos += 1;
+					return Ok(x != 0);
+				}
+				o => return Err(Ctl::Stop(format!("internal: trace mismatch at pc_feasible ({:?})", o))),
+			}
+		}
+		let r = {
+			let Interp { sol, tm, .. } = self;
+			sol.as_mut().unwrap().check_pc_tm(tm)
+		};
+		let ok = match r {
+			Res::Unsat => false,
+			Res::Sat => true,
+			Res::Unknown => return Err(Ctl::Unknown("solver answered unknown on the path condition".into())),
+		};
+		self.trace.push(Rec::Decided(ok as i8));
+		self.tpos += 1;
+		Ok(ok)
+	}
+	/// run a speculative unit; Ok(None) if it turned out impure (recorded so that replays skip it)
+	pub fn spec_unit<X>(&mut self, site: usize, f: &mut dyn FnMut(&mut Self) -> R<X>) -> R<Option<X>> {
+		if !self.merge_enabled {
+			return Ok(None);
+		}
+		let replaying = self.tpos < self.trace.len();
+		if replaying {
+			match self.trace[self.tpos] {
+				Rec::Spec(false) => {
+					self.tpos += 1;
+					return Ok(None);
+				}
+				Rec::Spec(true) => {
+					self.tpos += 1;
+				}
+				o => return Err(Ctl::Stop(format!("internal: trace mismatch at speculation ({:?})", o))),
+			}
+		} else if self.no_merge_sites.contains(&site) {
+			self.trace.push(Rec::Spec(false));
+			self.tpos += 1;
+			return Ok(None);
+		} else {
+			self.trace.push(Rec::Spec(true));
+			self.tpos += 1;
+		}
+		let start = self.tpos - 1;
+		match f(self) {
+			Ok(x) => Ok(Some(x)),
+			Err(Ctl::Impure(m)) => {
+				if replaying {
+					return Err(Ctl::Stop(format!("internal: speculation failed during replay: {}", m)));
+				}
+				self.no_merge_sites.insert(site);
+				self.trace.truncate(start);
+				self.trace.push(Rec::Spec(false));
+				self.tpos = start + 1;
+				Ok(None)
+			}
+			Err(e) => Err(e),
 		}
 	}
 	pub fn assume(&mut self, c: T) -> R<()> {
@@ -410,30 +505,19 @@ impl<'p> Interp<'p> {
 
 	/// two-way choice on a symbolic condition: merge if both sides are pure, otherwise fork
 	pub fn choice(&mut self, c: T, site: usize, f1: &mut dyn FnMut(&mut Self) -> R<V>, f2: &mut dyn FnMut(&mut Self) -> R<V>) -> R<V> {
+		let nc = self.tm.not(c);
+		let merged = self.spec_unit(site, &mut |s: &mut Self| {
+			let v1 = s.speculate(c, f1)?;
+			let v2 = s.speculate(nc, f2)?;
+			s.merge(c, v1, v2)
+		})?;
+		if let Some(v) = merged {
+			return Ok(v);
+		}
 		match self.decided(c)? {
 			Some(true) => return f1(self),
 			Some(false) => return f2(self),
 			None => {}
-		}
-		if self.merge_enabled && !self.no_merge_sites.contains(&site) {
-			let nc = self.tm.not(c);
-			let r1 = self.speculate(c, f1);
-			match r1 {
-				Ok(v1) => {
-					let r2 = self.speculate(nc, f2);
-					match r2 {
-						Ok(v2) => return self.merge(c, v1, v2),
-						Err(Ctl::Impure(_)) => {
-							self.no_merge_sites.insert(site);
-						}
-						Err(e) => return Err(e),
-					}
-				}
-				Err(Ctl::Impure(_)) => {
-					self.no_merge_sites.insert(site);
-				}
-				Err(e) => return Err(e),
-			}
 		}
 		if !self.spec_marks.is_empty() {
 			return Err(Ctl::Impure("unmergeable choice inside a speculative branch".into()));
@@ -607,8 +691,12 @@ impl<'p> Interp<'p> {
 		};
 		self.nontrivial += 1;
 		let t0 = std::time::Instant::now();
+		if let Ok(d) = std::env::var("RSX_DUMP") {
+			let script = self.sol.as_ref().unwrap().script(&self.tm, &[(t, false)]);
+			let _ = std::fs::write(format!("{}/q{}_{}.smt2", d, self.obligations, label.replace(|c: char| !c.is_alphanumeric(), "_")), script);
+		}
 		let sol = self.sol.as_mut().unwrap();
-		let r = if self.tm.as_bool(t) == Some(false) { sol.check_pc() } else { sol.check_with(&self.tm, t, false) };
+		let r = if self.tm.as_bool(t) == Some(false) { sol.check_pc_tm(&self.tm) } else { sol.check_with(&self.tm, t, false) };
 		let mut ev = Event { kind: "check".into(), label: label.into(), result: String::new(), model: vec![], path: self.path_no, ms: 0.0 };
 		match r {
 			Res::Unsat => ev.result = "unsat".into(),
